@@ -17,7 +17,7 @@ CHUNK = 60
 PROBES = ['large_capture', 'record_with_zero_timestamp_and_debugid', 'pid_with_top_bit_set', 'abandoned_parse_before', 'crashed_parse_before', 'v3_with_logs_before', 'residue_before', 'duplicate_tid_in_map',
           'duplicate_pid_in_map', 'empty_map', 'pad_nonzero', 'pad_zero', 'arbitrary_record_bytes', 'name_19_bytes',
           'bytes_after_nul', 'same_kdbuf_object_reused', 'zero_records', 'first_record_leading_zero',
-          'other_request_pending_when_created']
+          'other_request_pending_when_created', 'listings_read_in_turns']
 RULE = ('one run = a history of 1..7 operations on one long-lived table pair (full / abandoned / crashed / v3 parses, residue '
         'writes) followed by the judged complete parse of a seeded v2 file (thread map 0..8 entries with duplicate keys, pad '
         '0..4 KiB, 0..40 records from SimKernel or arbitrary bytes); non-trivial = the history left >= 1 table entry that the '
@@ -84,7 +84,7 @@ def generate(rng, index, tier):
     judged = _gen_file(rng)
     if index % 211 == 9:
         # a big capture: hundreds or thousands of thread-map entries (with repeated tids/pids) and of records
-        n = [260, 1030, 4100, 70000, worlds.dict_size(rng, 70000) or 300][(index // 211) % 5]
+        n = [260, 1030, 4100, 70000, worlds.dict_size(rng, 70000, k=(index // 211) // 5) or 300][(index // 211) % 5]
         judged['writer']['tmap'] = [[rng.randrange(1, 3000), rng.randrange(1, 500), rng.ident(1, 10), ''] for _ in range(n)]
         judged['raw_records'] = [(bytes([1 + i % 255]) + rng.randbytes(63)).hex() for i in range([300, 1100, 5000][(index // 211) % 3])]
         judged.pop('zero_lead', None)
@@ -96,7 +96,8 @@ def generate(rng, index, tier):
         # requests are lazy: another request on the same tables is created before or after the judged one is created and
         # is consumed completely before the judged one is pulled for the first time (the schedule of first pulls is seeded)
         scn['pending'] = [{'file': _gen_file(rng, arbitrary=False), 'created': rng.pick(['before', 'after']),
-                           'pulled': rng.pick(['all', 'all', 'some', 'none'])} for _ in range(rng.randint(1, 2))]
+                           'pulled': rng.pick(['all', 'all', 'some', 'none', 'interleaved', 'interleaved'])} for _ in range(rng.randint(1, 2))]
+        scn['pull_schedule'] = [rng.randrange(0, 3) for _ in range(rng.randint(2, 40))]
     return scn
 
 
@@ -248,9 +249,34 @@ def execute(scn):
             # the other requests run (to their end, for a few events, or not at all) before the judged one is pulled
             if pd.get('pulled') == 'all':
                 common.drain(it)
-            elif pd.get('pulled') == 'some':
+            elif pd.get('pulled') in ('some', 'interleaved'):
                 common.drain(it, limit=2)
-        items, exc = ([], exc0) if exc0 is not None else common.drain(judged_gen)
+        stepping = [it for pd, it in waiting if pd.get('pulled') == 'interleaved']
+        if exc0 is not None:
+            items, exc = [], exc0
+        elif stepping:
+            # the listings are then read in turns, one event at a time, in a seeded order (every listing reads its own stream)
+            bump('probe:listings_read_in_turns')
+            items, exc = [], None
+            sched = list(scn.get('pull_schedule', []))
+            jit = None
+            try:
+                jit = iter(judged_gen)
+                while True:
+                    c = sched.pop(0) if sched else 0
+                    if c == 0:
+                        x = next(jit, None)
+                        if x is None:
+                            break
+                        items.append(x)
+                    else:
+                        next(stepping[(c - 1) % len(stepping)], None)
+            except common.SimBudgetExceeded:
+                raise
+            except Exception as e:
+                exc = e
+        else:
+            items, exc = common.drain(judged_gen)
     else:
         items, exc = common.drain(lambda: start(data))
     if api == 'kd_noargs' and state['kd'] is not None:
